@@ -4,7 +4,7 @@ SPEC = {
     "theorems": ["C15_raw", "C15_header", "C15_chunk_header", "C15_tick_encoding", "C15_chunk",
                  "C15_K15_refuted", "C15_K15H_refuted",
                  "C15_refuse_tick", "C15_accept_tick", "C15_raw_tick_panics",
-                 "C15_typed_partial", "C15_K15W_refuted", "C15_nonvacuous"],
+                 "C15_transport", "C15_typed", "C15_K15W_refuted", "C15_nonvacuous"],
     "allowed_axioms": [],
     "extract": {
         "LibTw2.Model.Demo": ["writer_new", "write_chunk", "write_all", "read_all", "header_view"],
@@ -31,7 +31,10 @@ SPEC = {
         "u32 checksum, length >= 0 - K15H otherwise), ticks are i32, payloads are bytes, no payload is longer than "
         "MAX_SNAPSHOT_SIZE = 65536 bytes (K15 otherwise), and the writer accepted every call (write_all = Ok: ticks "
         "increase strictly, every compressed payload is below 65536 bytes, every int-packed message is at most 65536 bytes)",
-        "C15_typed_partial: no call of the history panics (the results may be Ok or any Err)",
+        "C15_transport: no call of the history panics (the results may be Ok or any Err)",
+        "C15_typed: every call is accepted or is a refused tick (accepted_res; the other refusals are K15W), objects "
+        "have type ids / ids in range and i32 words (hop_typed_ok); an object is (obj_type_id(), id, encode()) and a "
+        "message its encoded bytes - the SnapObj / Game codecs are C14's and are covered here by the harness only",
     ],
     "explanation": "Raw layer proved for all headers and all chunk sequences by induction over the chunk list with the "
                    "writer's prev_tick and the reader's current_tick in step; it uses C07's round trip on the built-in "
@@ -39,13 +42,18 @@ SPEC = {
                    "absolute i32 tick, every size 0..65535 with the three encodings' lengths (boundaries 29/30, 255/256); "
                    "inline ticks exactly for non-key-frame gaps 1..31. High-level writer: a tick <= last_tick returns "
                    "TooLowTickNumber with the state unchanged and nothing written; larger ticks are never refused for "
-                   "their number. Typed layer: proved that DemoReader is handed exactly the payloads DemoWriter encoded "
-                   "(key frame = Snap::write of the built snapshot, else Delta::write of Delta::create(last, new), key "
-                   "frames by the 250-tick rule); the object-set equality itself rests on the snapshot codec (C09/C10) "
-                   "and is checked by the harness on world histories (objects of 36 DDNet types incl. 16 UUID types "
-                   "appearing/changing/vanishing over several key-frame intervals) through the real typed API.",
-    "level_text": "proof for all inputs at the raw layer and for the tick refusal; typed layer: transport proved, "
-                  "object-set equality by differential testing + oracle (C15_typed_partial)",
+                   "their number. Typed layer (an object is its type id, id and encode() words): by induction "
+                   "over the history with the invariants 'the reader's snapshot holds the same items and registry as the "
+                   "writer's' and 'the recycled builder holds nothing but its registry' (through Builder::add_item, "
+                   "Snap::write/read, Delta::create/write/read/read_with_delta, Snap::recycle; key frames by the 250-tick "
+                   "rule), the reader reports per accepted write_snap exactly Tick and a snapshot whose items are the "
+                   "given objects (a permutation), per write_msg the padded bytes, nothing for refused ticks, no "
+                   "warnings. The harness drives the real typed API (objects of 36 DDNet types incl. 16 UUID types "
+                   "appearing/changing/vanishing over several key-frame intervals, messages) and compares file bytes, "
+                   "read-back and object sets.",
+    "level_text": "proof for all inputs at the raw layer, for the tick refusal and for the typed layer (C15_typed: objects as "
+                  "(type id, id, encode() words)); the SnapObj / Game codecs are C14's and are covered here by differential "
+                  "testing + oracle",
     "level_note": "Known findings: K15 (raw Writer accepts payloads above 65536 bytes that the Reader rejects - "
                   "C15_K15_refuted), K15H (Writer::new accepts a NUL inside a string / a negative length - "
                   "C15_K15H_refuted), K15W (errors of DemoWriter other than the tick refusal corrupt its state - "
